@@ -89,6 +89,38 @@ type ClaimIn struct {
 	// and re-created: the owner reference no longer matches). "" with Pool: the NodePool exists and owns the NodeClaim.
 	Ps string `json:"ps,omitempty"`
 	Fin     bool    `json:"fin"`     // termination finalizer already present when the history starts
+	// Ff: finalizers of OTHER controllers the NodeClaim is created with (a provider-specific controller, a backup / GitOps
+	// tool, metadata.finalizers of a hand-written manifest). The first one precedes karpenter's own finalizer in the list
+	// (when Fin), the others follow it. Their owners release them as soon as the NodeClaim is terminating (after the step
+	// that made it so): a foreign finalizer never holds a NodeClaim back once karpenter's own is gone.
+	Ff []string `json:"ff,omitempty"`
+	// Em: the text of the error the provider's Create answers with (every error class), nil = a short ASCII text
+	Em *ErrMsg `json:"em,omitempty"`
+}
+
+// ErrMsg: Pre ASCII characters followed by N characters of W bytes each (W = 1..4: 'y', U+00E9, U+5BB9, U+1F600)
+type ErrMsg struct {
+	Pre int `json:"pre"`
+	W   int `json:"w"`
+	N   int `json:"n"`
+}
+
+var errRunes = map[int]string{1: "y", 2: "\u00e9", 3: "\u5bb9", 4: "\U0001F600"}
+
+func (m *ErrMsg) text() string {
+	r, ok := errRunes[m.W]
+	if !ok || m.Pre < 0 || m.N < 0 {
+		panic(fmt.Sprintf("bad error text shape %+v", *m))
+	}
+	return strings.Repeat("x", m.Pre) + strings.Repeat(r, m.N)
+}
+
+func (m *ErrMsg) bytes() int { return m.Pre + m.W*m.N }
+func (m *ErrMsg) runes() int { return m.Pre + m.N }
+
+// aligned: byte `at` of the text is a character boundary (or beyond its end)
+func (m *ErrMsg) aligned(at int) bool {
+	return m.bytes() <= at || m.Pre >= at || (at-m.Pre)%m.W == 0
 }
 
 type Step struct {
@@ -138,6 +170,8 @@ type ClaimObs struct {
 	Pid    bool   `json:"pid,omitempty"`     // status.providerID set
 	PLabel bool   `json:"plabels,omitempty"` // provider-resolved labels present
 	Node   bool   `json:"nodeName,omitempty"`
+	Ff     []string `json:"ff,omitempty"` // finalizers other than karpenter's, in list order
+	Lm     int      `json:"Lm,omitempty"` // byte length of the Launched condition's message when its reason is LaunchFailed
 }
 
 type NodeObs struct {
@@ -163,7 +197,7 @@ type StepObs struct {
 	Rec     bool        `json:"rec,omitempty"`
 	Calls   []string    `json:"calls,omitempty"`   // writes and provider calls in order, "site:outcome"
 	Reads   int         `json:"reads,omitempty"`   // node list calls (not compared with the model)
-	Result  string      `json:"result,omitempty"`  // ok | requeue | after:<s> | err
+	Result  string      `json:"result,omitempty"`  // ok | requeue | after:<s> | err | panic (Reconcile panicked; controller-runtime recovers and retries)
 	View    ClaimObs    `json:"view,omitempty"`    // what Reconcile was handed
 	Claim   ClaimObs    `json:"claim,omitempty"`   // API server state after the step
 	Nodes   []NodeObs   `json:"nodes,omitempty"`   // nodes carrying the instance's provider id, by name
@@ -186,6 +220,8 @@ const (
 	poolUID     = "uid-pool-a"
 	userLabel   = "example.com/team"
 	customCause = "CustomReason"
+	// the generic provider error's text when the input gives none (the Lean driver knows its length: 20 bytes)
+	defaultGenericText = "provider unavailable"
 )
 
 var resName = fakecp.ResourceGPUVendorA
@@ -243,15 +279,21 @@ func (p *provider) Create(ctx context.Context, nc *v1.NodeClaim) (*v1.NodeClaim,
 	if err == nil {
 		obs.Fin = hasFinalizer(cur.Finalizers)
 	}
+	text := func(def string) error {
+		if w.in.Em != nil {
+			return errors.New(w.in.Em.text())
+		}
+		return errors.New(def)
+	}
 	switch w.create {
 	case "ice":
-		p.CloudProvider.NextCreateErr = cloudprovider.NewInsufficientCapacityError(fmt.Errorf("no capacity"))
+		p.CloudProvider.NextCreateErr = cloudprovider.NewInsufficientCapacityError(text("no capacity"))
 	case "ncnr":
-		p.CloudProvider.NextCreateErr = cloudprovider.NewNodeClassNotReadyError(fmt.Errorf("nodeclass not ready"))
+		p.CloudProvider.NextCreateErr = cloudprovider.NewNodeClassNotReadyError(text("nodeclass not ready"))
 	case "gen":
-		p.CloudProvider.NextCreateErr = fmt.Errorf("provider unavailable")
+		p.CloudProvider.NextCreateErr = text(defaultGenericText)
 	case "cerr":
-		p.CloudProvider.NextCreateErr = cloudprovider.NewCreateError(fmt.Errorf("launch refused"), customCause, "instance creation failed")
+		p.CloudProvider.NextCreateErr = cloudprovider.NewCreateError(text("launch refused"), customCause, "instance creation failed")
 	}
 	out, cerr := p.CloudProvider.Create(ctx, nc)
 	cls := "ok"
@@ -357,8 +399,17 @@ func newWorld(in ClaimIn) *world {
 	case 2:
 		nc.Spec.Resources.Requests = corev1.ResourceList{resName: resource.MustParse("0")}
 	}
-	if in.Fin {
-		nc.Finalizers = []string{v1.TerminationFinalizer}
+	for i, f := range in.Ff {
+		if f == "" || f == v1.TerminationFinalizer {
+			panic(fmt.Sprintf("bad foreign finalizer %q", f))
+		}
+		if i == 1 && in.Fin {
+			nc.Finalizers = append(nc.Finalizers, v1.TerminationFinalizer)
+		}
+		nc.Finalizers = append(nc.Finalizers, f)
+	}
+	if in.Fin && len(in.Ff) < 2 {
+		nc.Finalizers = append(nc.Finalizers, v1.TerminationFinalizer)
 	}
 	objs := []client.Object{nc}
 	if in.labelled() {
@@ -693,7 +744,47 @@ func (w *world) claimObs(nc *v1.NodeClaim) ClaimObs {
 	o.R, o.Rr, o.Rt = condObs(nc, v1.ConditionTypeRegistered)
 	o.I, o.Ir, o.It = condObs(nc, v1.ConditionTypeInitialized)
 	_, o.PLabel = nc.Labels[corev1.LabelInstanceTypeStable]
+	for _, f := range nc.Finalizers {
+		if f != v1.TerminationFinalizer {
+			o.Ff = append(o.Ff, f)
+		}
+	}
+	for _, c := range nc.Status.Conditions {
+		if c.Type == v1.ConditionTypeLaunched && c.Reason == "LaunchFailed" {
+			o.Lm = len(c.Message)
+		}
+	}
 	return o
+}
+
+// releaseForeign: the owners of the other finalizers let go of a NodeClaim that is terminating
+func (w *world) releaseForeign() error {
+	cur := w.serverClaim()
+	if cur == nil || cur.DeletionTimestamp.IsZero() {
+		return nil
+	}
+	keep := []string{}
+	for _, f := range cur.Finalizers {
+		if f == v1.TerminationFinalizer {
+			keep = append(keep, f)
+		}
+	}
+	if len(keep) == len(cur.Finalizers) {
+		return nil
+	}
+	cur.Finalizers = keep
+	return client.IgnoreNotFound(w.base.Update(w.ctx, cur))
+}
+
+// reconcile: controller-runtime recovers a panic of Reconcile and retries with backoff
+func (w *world) reconcile(view *v1.NodeClaim) (res string) {
+	defer func() {
+		if p := recover(); p != nil {
+			res = "panic"
+		}
+	}()
+	r, err := w.ctrl.Reconcile(w.ctx, view)
+	return resultClass(r, err)
 }
 
 func (w *world) nodeObs(stray bool) []NodeObs {
@@ -764,14 +855,16 @@ func run(in In) (Out, error) {
 				if w.faults == nil {
 					w.faults = map[string]string{}
 				}
-				r, err := w.ctrl.Reconcile(w.ctx, view.DeepCopy())
-				so.Result = resultClass(r, err)
+				so.Result = w.reconcile(view.DeepCopy())
 				so.Calls, so.Reads, so.Creates = w.calls, w.reads, w.creates
 				w.faults = map[string]string{}
 			} else {
 				so.Result = "ok" // controller-runtime does not call Reconcile for an object its cache no longer has
 			}
 		} else if err := w.env(s); err != nil {
+			return out, err
+		}
+		if err := w.releaseForeign(); err != nil {
 			return out, err
 		}
 		sc := w.serverClaim()
